@@ -1,6 +1,7 @@
 import IceProofs.TaskLoopTrace
 import IceProofs.TaskLoopProgress
 import IceSpec.C10
+import IceProofs.C10View
 /-!
 # C10 — agent state is only touched serially (task loop)
 
@@ -226,6 +227,32 @@ theorem C10_trace_passes_monitor (as : List Action) (s : State) (h : run init as
 
 example : trace [.call 0, .errCheckPass 0, .handoff 0, .start 0, .finish 0, .closePriv 0, .wake 0] =
     [.submit 0, .taskStart 0, .taskEnd 0, .runReturn 0 .nil] := by decide
+
+open IceSpec.C10.View in
+/-- **View round trip (history tokens).** Every recorded event (including nested submits and unknown
+errors) is read back from its canonical token by the reader the driver uses (`IceSpec/C10View.lean`; no
+well-formedness hypothesis), and the string monitor on a printed history is the typed monitor. -/
+theorem C10_view_roundtrip :
+    (∀ e : HEv, parseTok (printH e) = some e) ∧ (∀ e : Ev, toEv (hevOf e) = some e) ∧
+    (∀ h : List Ev, monitorToks ((h.map hevOf).map printH) = monitor h) :=
+  ⟨IceProofs.C10View.parseTok_printH, IceProofs.C10View.toEv_hevOf, IceProofs.C10View.monitorToks_print⟩
+
+open IceSpec.C10.View in
+-- non-vacuity: the printed tokens are the protocol's tokens
+example : [HEv.submit 0, .nested 0 12, .tstart 0, .tend 0, .ret 0 (some .nil), .ret 1 none, .ccall 0 true, .prestop, .cret 0].map printH
+    = ["s0", "n0.12", "b0", "e0", "r0:n", "r1:?", "c0:1", "p", "d0"] := by decide
+
+open IceSpec.C10.View in
+/-- **Model ⊆ STRING monitor.** The printed trace of EVERY execution of the model is accepted by
+`monitorToks`, the monitor the driver runs on the tokens recorded from the real loop. -/
+theorem C10_model_passes_string_monitor (as : List Action) (s : State) (h : run init as = some s) :
+    monitorToks (((trace as).map hevOf).map printH) = none := by
+  rw [IceProofs.C10View.monitorToks_print]
+  exact C10_trace_passes_monitor as s h
+
+open IceSpec.C10.View in
+example : ((trace [.call 0, .errCheckPass 0, .handoff 0, .start 0, .finish 0, .closePriv 0, .wake 0]).map hevOf).map printH =
+    ["s0", "b0", "e0", "r0:n"] := by decide
 
 /-- **No deadlock when `Run` is never called from inside a task.**  After any execution without
 `callNested`, as long as some `Run` or `Close` call is in progress, some statement of the code (or the
